@@ -150,9 +150,16 @@ def harness_bin(profile):
 
 def gen_cases(pid, tier, seed, profile, wdir):
     path = os.path.join(wdir, "%s.%s.%s.cases" % (pid, tier, profile))
-    p = subprocess.run([harness_bin(profile), "gen", pid, tier, str(seed), path], cwd=wdir,
-                       stdout=subprocess.PIPE, stderr=subprocess.STDOUT, text=True, timeout=3000)
-    return path, p.returncode, p.stdout
+    # a generator run normally takes seconds (quick) to a few minutes (thorough); a run that
+    # exceeds the limit hangs inside the crate: it is killed and the case in progress (written
+    # without observation) is the failing input
+    limit = int(os.environ.get("VERIF_HARNESS_TIMEOUT", "180" if tier == "quick" else "1500"))
+    try:
+        p = subprocess.run([harness_bin(profile), "gen", pid, tier, str(seed), path], cwd=wdir,
+                           stdout=subprocess.PIPE, stderr=subprocess.STDOUT, text=True, timeout=limit)
+        return path, p.returncode, p.stdout
+    except subprocess.TimeoutExpired as e:
+        return path, 124, "harness killed after %ds (hang in the case in progress)" % limit
 
 def run_driver(cases, maxrec=20):
     fail = cases + ".fail"
